@@ -348,6 +348,8 @@ def finish(ctx, write_evidence=True):
           'violations=%d known=%d wall=%.1fs' % (
               ctx.pid, ctx.tier, ctx.seed, cov['evaluations'], cov['distinct_nontrivial'], cov['states'],
               cov['transitions'], cov['traces_validated_against_impl'], len(new), len(known), wall))
+    if new:
+        return 1        # a violation was shown (its VIOLATION line is printed); errors of the harness, if any, are printed as well
     if ctx.errors:
         return 2
     if not new and (cov['evaluations'] < 1 or cov['states'] < 1 or cov['transitions'] < 1 or cov['distinct_nontrivial'] < 2):
